@@ -56,13 +56,14 @@ def f32_assumptions(cx, man, chk):
     t0 = time.time()
     p = subprocess.run([chk.harness_bin('release'), 'f32sweep', step], stdout=subprocess.PIPE, stderr=subprocess.PIPE)
     out = p.stdout.decode('utf-8', 'replace').strip()
-    m = re.search(r'checked=(\d+) bad=(\d+) empty_is_err=(\d) product_sample_bad=(\d+)', out)
+    m = re.search(r'checked=(\d+) bad=(\d+) empty_is_err=(\d) product_sample_bad=(\d+) grammar_texts=(\d+) grammar_texts_bad=(\d+)', out)
     info = {'step': int(step), 'seconds': round(time.time() - t0, 1), 'output': out[:400]}
     if not m or p.returncode != 0:
         cx.broken.append(('assumption', 'f32 sweep did not run', out[-300:]))
     else:
-        info.update({'weights_checked': int(m.group(1)), 'bad': int(m.group(2)), 'empty_text_is_error': m.group(3) == '1', 'product_sample_bad': int(m.group(4))})
-        if int(m.group(2)) or m.group(3) != '1' or int(m.group(4)):
+        info.update({'weights_checked': int(m.group(1)), 'bad': int(m.group(2)), 'empty_text_is_error': m.group(3) == '1', 'product_sample_bad': int(m.group(4)),
+                     'grammar_texts_parsed': int(m.group(5)), 'grammar_texts_bad': int(m.group(6))})
+        if int(m.group(2)) or m.group(3) != '1' or int(m.group(4)) or int(m.group(6)):
             cx.broken.append(('assumption', 'a named f32 hypothesis (WTextOk / product closure) fails on Rust f32', out[:400]))
     cx.cov.setdefault('extra', {})['f32_assumption_sweep'] = info
 
